@@ -389,7 +389,9 @@ func judgeHistory(h history) (failure string, meas map[string]interface{}, incon
 			// carrier, its multiplexer workers, on both sides) is released too, so the footprint is back to that of the
 			// two ends before their first session
 			limit := vlib.Footprint{Goroutines: fresh.Goroutines + slack, FDs: fresh.FDs + slack}
-			after = vlib.QuiesceBelow(limit, 4*time.Second)
+			// (a silent carrier is only noticed by the keep-alive: with no idle connection waiting for its end nothing
+			// above has waited for that yet)
+			after = vlib.QuiesceBelow(limit, wait+10*time.Second)
 			meas["before_first_session"] = fresh.String()
 			meas["after_ending_settled"] = after.String()
 			if after.Goroutines > limit.Goroutines || after.FDs > limit.FDs {
